@@ -119,7 +119,10 @@ and nil (str_to_str) and, for a float, of the delivery of its text (given as exp
 def stepK (fields : List String) : String :=
   match fields with
   | _ :: kind :: _ :: bl :: pre :: arg :: rest =>
-    match parseKind kind, parseArg (if arg.startsWith "f:" then arg ++ ":0:" else if arg.startsWith "s:" then arg ++ ":0" else if arg.startsWith "c:" then arg ++ ":0" else arg) with
+    let fiv : Option Int := match arg.splitOn ":" with
+      | "f" :: _ :: n :: _ => if n == "x" ∨ n == "" then none else some (parseInt n)
+      | _ => none
+    match parseKind kind, parseArg (if arg.startsWith "f:" then "f:0:0:" else if arg.startsWith "s:" then arg ++ ":0" else if arg.startsWith "c:" then arg ++ ":0" else arg) with
     | some k, some a =>
       let buflen := bl.toNat?.getD 0
       let pre := unhex pre
@@ -128,7 +131,7 @@ def stepK (fields : List String) : String :=
         | [] => []
       match a with
       | .int v => showVRes buflen (valIntToStr v k buflen pre)
-      | .flt _ _ => showVRes buflen (deliverFlt exp k buflen pre)
+      | .flt _ _ => showVRes buflen (valFltToStr fiv exp k buflen pre)
       | .str s _ => showVRes buflen (strToStr s k buflen pre)
       | .chr c _ => if kind == "cpl" then "skip" else showVRes buflen (strToStr [c] k buflen pre)
       | .nil => showVRes buflen (strToStr [] k buflen pre)
@@ -146,7 +149,18 @@ def step (_ : Unit) (line : String) : Unit × String :=
       | none => ((), "bad-arg")
       | some args =>
         let cfg : Cfg := { mbs := mode == "B", valMode := mode == "C" }
-        let m := match format cfg (unhex fmthex) args with
+        -- mode C (val_flt_to_str): `f:<text>:<trunc>:<hex>:<integer or x>` says whether the value is an exact integer in range
+        let civ : Option Int := match argstrs with
+          | [a] => (match a.splitOn ":" with
+            | "f" :: _ :: _ :: _ :: n :: _ => if n == "x" ∨ n == "" then none else some (parseInt n)
+            | _ => none)
+          | _ => none
+        let res := if mode == "C" then
+            (match args with
+             | [a] => valFltToPieces cfg.tmpLen false (unhex fmthex) (unhex fmthex) civ a
+             | _ => format cfg (unhex fmthex) args)
+          else format cfg (unhex fmthex) args
+        let m := match res with
           | .error .efmtarg => "!EFMTARG"
           | .ok ps => let ps := mergeText ps; if ps.isEmpty then "T:-" else ",".intercalate (ps.map (showPiece args))
         let r := if cfmthex == "-" then "NA" else cRender (unhex cfmthex) cval args
